@@ -17,12 +17,12 @@ from .. import core
 STATES = ('handshake', 'status', 'login', 'play')
 
 
-def tables(mc):
+def tables(mc, order=None):
     from minecraft.networking.packets import clientbound, serverbound
     from minecraft.networking.connection import ConnectionContext
     out = []
     classes = {}
-    for v in mc.KNOWN_PROTOCOL_VERSIONS:
+    for v in (mc.KNOWN_PROTOCOL_VERSIONS if order is None else order):
         ctx = ConnectionContext(protocol_version=v)
         sup = v in mc.SUPPORTED_PROTOCOL_VERSIONS
         for st in STATES:
@@ -85,6 +85,35 @@ def run(chk):
                     seen[x['id']] = x['cls']
         if not r.ok and not chk.violations:
             raise core.MachineryError('IdTables failed: %s' % (r.errors[:2],))
+    # ---- the tables are asked for again in other version orders (descending, zig-zag, shuffled): whatever was built
+    #      before, every table must still be total and injective (state shared between calls must not leak classes)
+    supv = list(mc.SUPPORTED_PROTOCOL_VERSIONS)
+    zig = [supv[(-1 - i // 2) if i % 2 == 0 else i // 2] for i in range(len(supv))]
+    passes = [('descending', list(reversed(supv))), ('zigzag', zig)]
+    for k in range(1 if chk.tier == 'quick' else 6):
+        w = list(supv)
+        rng.shuffle(w)
+        passes.append(('shuffled%d' % k, w))
+    first = {(t['v'], t['st'], t['dir']): t for t in tab}
+    for pname, order in passes:
+        tab2, _ = tables(mc, order)
+        for t in tab2:
+            chk.evaluations += 1
+            seen = {}
+            ref = first[(t['v'], t['st'], t['dir'])]
+            if t['ids'] != ref['ids']:
+                chk.drift.append({'table-depends-on-call-order': [pname, t['v'], t['st'], t['dir']]})
+            for x in t['ids']:
+                if not x['isint'] or x['id'] < 0:
+                    chk.violation('idtable:not-total:%s' % x['cls'], 'class %s has no non-negative integer id at protocol %d (%s/%s) '
+                                  'when the tables are built in %s order' % (x['cls'], t['v'], t['st'], t['dir'], pname), {'entry': t, 'pass': pname})
+                elif x['id'] in seen:
+                    chk.violation('idtable:collision:%s/%s@%d' % (tuple(sorted((x['cls'], seen[x['id']]))) + (t['v'],)),
+                                  'classes %s and %s share id 0x%02X at protocol %d (%s/%s) when the tables are built in %s order'
+                                  % (seen[x['id']], x['cls'], x['id'], t['v'], t['st'], t['dir'], pname), {'entry': t, 'pass': pname})
+                else:
+                    seen[x['id']] = x['cls']
+    chk.extra['extra_build_orders'] = [p[0] for p in passes]
     n_sup = 0
     for t in tab:
         if t['sup']:
